@@ -10,8 +10,11 @@
 //! input lines
 //!   {"ev":"case","serverCert":..,"nameMatches":..,"skipVerify":..,"clientCert":..,"serverClientCA":..}
 //!   {"ev":"script","id":n,"mtls":bool,"ops":[{"op":"connect"|"reload"|"use","conn":k},..]}
+//!   {"ev":"rscript","id":n,"mtls":bool,"ops":[{"op":"connect","conn":k|0,"cc":"trustedCA"|"none"|"otherCA"}
+//!                                              |{"op":"reload"}|{"op":"use","conn":k},..]}
+//!       the same machine through the REAL server entry point (see "real-server scripts" below)
 //!   optional "alg", "namekind", "pki" pin the PKI parameters (replay files: logged lines are valid input;
-//!   lines with "ev":"step" are ignored)
+//!   lines with "ev":"step" / "rstep" are ignored)
 //!
 //! server side: exactly the serve path of penguin/src/server/mod.rs (`run_listener` + `serve_connection_tls`):
 //!   `tokio_rustls::TlsAcceptor::from(identity.load_full()).accept(stream)`.
@@ -666,6 +669,447 @@ async fn run_script(pki: &Pki, s: &Value, out: &mut Vec<Value>) {
 }
 
 // ------------------------------------------------------------------------------------------------
+// real-server scripts: server_main + SIGUSR1
+// ------------------------------------------------------------------------------------------------
+// What the duplex scripts above cannot see is the path the running server takes to a reload:
+// `server_main` -> `check_start_tls` -> `register_signal_handler` -> SIGUSR1 -> `reload_tls_identity` with the
+// arguments the SERVER kept.  Here `rusty_penguin_lib::server::server_main` runs in this process on a loopback
+// TCP port with --tls-cert / --tls-key (and --tls-ca for mtls scripts) pointing at live.crt / live.key of the
+// PKI set; connections are made with the application's `tls_connect` over real TCP, an HTTP/1.1 request (the
+// server answers with its 404 body) is the application-data round trip ("reached the server"); a reload
+// rewrites live.crt / live.key and sends SIGUSR1 to this process.
+//
+// SIGUSR1 is process-wide.  Every script gets its OWN tokio runtime which is shut down when the script ends:
+// `server_main`, its listeners and the task of `register_signal_handler` die with it, so at any time at most
+// one server (one SIGUSR1 reload task) lives in this process.  A server whose start failed on a port clash has
+// already registered its reload task: its runtime is dropped as well before the next attempt.
+//
+// Waiting for a reload without sleep-and-hope:
+//  (1) this harness holds its own tokio listener for SIGUSR1 (registered before the server starts, which also
+//      means the default action "terminate" is never in force when the signal is raised).  After kill() the
+//      harness waits for its own listener: tokio broadcasts a signal to all listeners, so from then on the
+//      server's reload task has been woken too.  Not seeing the own signal within SIGNAL_DEADLINE means the
+//      harness cannot do its job: TOOL ERROR (panic "tool:"), never a verdict.
+//  (2) then it polls with probe handshakes presenting what the NEW identity must accept (the trusted client
+//      certificate for mtls, none otherwise) until one of them is served the new certificate (serial 100+v;
+//      in TLS 1.3 the client holds the server's certificate even if the server then refuses the client) ->
+//      res "ok".  If RELOAD_DEADLINE passes with the signal delivered and the probes still being served the old
+//      identity (or failing), that is an OBSERVATION, logged as res "stale" / "unreachable" with what the last
+//      probe saw; TLC rejects the line (reload_not_effective / reload_failed).  The deadline is only a bound on
+//      how long a server that was woken may take to read three small files; nothing is compared across
+//      processes and no fixed sleep decides anything.
+// Tool errors (exit != 0 of this program): no free port after PORT_ATTEMPTS attempts (`server_main` returning
+// AddrInUse is a port clash, not a finding), `server_main` still running but not listening on its port after
+// START_DEADLINE, the own SIGUSR1 listener silent.
+// Everything else (server_main returning / failing after start, refused or hanging handshakes, panics of the
+// client code) is data.
+type RealStream = tokio_rustls::TlsStream<tokio::net::TcpStream>;
+
+const START_DEADLINE: Duration = Duration::from_secs(30);
+const SIGNAL_DEADLINE: Duration = Duration::from_secs(30);
+const RELOAD_DEADLINE: Duration = Duration::from_secs(30);
+/// once a reload of this run was seen NOT to take effect within RELOAD_DEADLINE the verdict of the run is a
+/// rejected line already; later reloads wait this long only, so that a server that never reloads does not cost
+/// RELOAD_DEADLINE per script
+const RELOAD_DEADLINE_AFTER_STALE: Duration = Duration::from_secs(2);
+static STALE_SEEN: std::sync::atomic::AtomicBool = std::sync::atomic::AtomicBool::new(false);
+const PORT_ATTEMPTS: usize = 8;
+/// the server's --timeout (idle HTTP connections are closed after it): far above anything a script takes
+const SERVER_TIMEOUT_SECS: u64 = 900;
+const NOT_FOUND_BODY: &str = "verif-c17-not-found";
+
+/// One HTTP/1.1 request / response on a kept-alive connection. Returns (status, body).
+async fn http_round_trip(st: &mut RealStream, host: &str) -> std::io::Result<(u16, String)> {
+    let eof = || std::io::Error::from(std::io::ErrorKind::UnexpectedEof);
+    let req = format!("GET /verif-c17 HTTP/1.1\r\nHost: {host}\r\nUser-Agent: verif-c17\r\n\r\n");
+    st.write_all(req.as_bytes()).await?;
+    st.flush().await?;
+    let mut buf: Vec<u8> = Vec::new();
+    let mut chunk = [0u8; 2048];
+    let head_end = loop {
+        if let Some(p) = buf.windows(4).position(|w| w == b"\r\n\r\n") {
+            break p + 4;
+        }
+        if buf.len() > 65536 {
+            return Err(std::io::Error::other("response head too long"));
+        }
+        let n = st.read(&mut chunk).await?;
+        if n == 0 {
+            return Err(eof());
+        }
+        buf.extend_from_slice(&chunk[..n]);
+    };
+    let head = String::from_utf8_lossy(&buf[..head_end]).into_owned();
+    let mut lines = head.split("\r\n");
+    let status_line = lines.next().unwrap_or("");
+    let mut parts = status_line.split(' ');
+    let status = match (parts.next(), parts.next().and_then(|s| s.parse::<u16>().ok())) {
+        (Some(v), Some(code)) if v.starts_with("HTTP/1.") => code,
+        _ => return Err(std::io::Error::other(format!("not an HTTP/1.x response: {status_line:?}"))),
+    };
+    let mut len = 0usize;
+    for l in lines {
+        if let Some((k, v)) = l.split_once(':') {
+            if k.eq_ignore_ascii_case("content-length") {
+                len = v.trim().parse().map_err(|_| std::io::Error::other("bad content-length"))?;
+            }
+        }
+    }
+    if len > 65536 {
+        return Err(std::io::Error::other("response body too long"));
+    }
+    while buf.len() < head_end + len {
+        let n = st.read(&mut chunk).await?;
+        if n == 0 {
+            return Err(eof());
+        }
+        buf.extend_from_slice(&chunk[..n]);
+    }
+    Ok((status, String::from_utf8_lossy(&buf[head_end..head_end + len]).into_owned()))
+}
+
+/// What the client end of a real connection observed (Side + the HTTP status).
+struct RealObs {
+    side: Side,
+    status: u16,
+}
+
+/// The server does not set TCP_NODELAY: after the handshake its session tickets go out first and the HTTP answer
+/// waits (Nagle) for their ACK, which this end, having nothing to send, would delay by 40 ms. Setting
+/// TCP_QUICKACK on the harness's OWN socket flushes a pending ACK; repeating it while a round trip is in flight
+/// only shortens the run (25 s -> a few seconds for the quick tier) and changes nothing the server does.
+fn quick_ack_fd(fd: std::os::fd::RawFd) {
+    let one: libc::c_int = 1;
+    // SAFETY: setsockopt with a valid pointer / length on a descriptor that is open for the duration of the
+    // call (the stream it belongs to is borrowed by the caller); a failure is ignored
+    unsafe {
+        libc::setsockopt(
+            fd,
+            libc::IPPROTO_TCP,
+            libc::TCP_QUICKACK,
+            std::ptr::from_ref(&one).cast(),
+            std::mem::size_of::<libc::c_int>() as libc::socklen_t,
+        );
+    }
+}
+
+async fn with_quick_ack<T>(fd: std::os::fd::RawFd, fut: impl std::future::Future<Output = T>) -> T {
+    let mut fut = std::pin::pin!(fut);
+    loop {
+        quick_ack_fd(fd);
+        tokio::select! {
+            r = &mut fut => return r,
+            () = tokio::time::sleep(Duration::from_millis(1)) => {}
+        }
+    }
+}
+
+async fn real_round_trip(st: &mut RealStream, host: &str, obs: &mut RealObs) {
+    let fd = {
+        use std::os::fd::AsRawFd as _;
+        st.get_ref().0.as_raw_fd()
+    };
+    match with_quick_ack(fd, http_round_trip(st, host)).await {
+        Ok((status, body)) => {
+            obs.side.rt = "ok".into();
+            obs.side.data = body;
+            obs.status = status;
+        }
+        Err(e) => {
+            let (k, t) = classify_io(&e);
+            obs.side.rt = k.into();
+            obs.side.err = t;
+        }
+    }
+    obs.side.peer = peer_info(st.get_ref().1.peer_certificates());
+}
+
+/// TCP connect + the application's `tls_connect` + one round trip.
+async fn real_client(port: u16, cfg: ClientCfg) -> (RealObs, Option<RealStream>) {
+    let tcp = match tokio::net::TcpStream::connect(("127.0.0.1", port)).await {
+        Ok(t) => t,
+        Err(e) => return (RealObs { side: Side::failed("tcp_err", format!("{e:?}")), status: 0 }, None),
+    };
+    let _ = tcp.set_nodelay(true);
+    let fd = {
+        use std::os::fd::AsRawFd as _;
+        tcp.as_raw_fd()
+    };
+    let hs = tls_connect(tcp, &cfg.name, cfg.cert.as_deref(), cfg.key.as_deref(), cfg.ca.as_deref(), cfg.skip);
+    match with_quick_ack(fd, hs).await {
+        Err(e) => {
+            let (k, t) = classify_tls(&e);
+            (RealObs { side: Side::failed(k, t), status: 0 }, None)
+        }
+        Ok(mut st) => {
+            let mut obs = RealObs { side: Side::new(), status: 0 };
+            obs.side.hs = "ok".into();
+            obs.side.proto = format!("{:?}", st.get_ref().1.protocol_version());
+            real_round_trip(&mut st, &cfg.name, &mut obs).await;
+            (obs, Some(st))
+        }
+    }
+}
+
+/// `guarded` for the real client: a panic or a hang of the code under test is data.
+async fn guarded_real(
+    f: impl std::future::Future<Output = (RealObs, Option<RealStream>)> + Send + 'static,
+) -> (RealObs, Option<RealStream>) {
+    let (side, st) = guarded(async move {
+        let (obs, st) = f.await;
+        let status = obs.status;
+        (obs.side, Some((status, st)))
+    })
+    .await;
+    match st {
+        Some((status, st)) => (RealObs { side, status }, st),
+        None => (RealObs { side, status: 0 }, None),
+    }
+}
+
+fn put_real(line: &mut Value, o: &RealObs) {
+    let m = line.as_object_mut().expect("object");
+    m.insert("client_hs".into(), json!(o.side.hs));
+    m.insert("client_rt".into(), json!(o.side.rt));
+    m.insert("http_status".into(), json!(o.status));
+    m.insert("cli_data".into(), json!(o.side.data));
+    m.insert("client_err".into(), json!(o.side.err));
+    m.insert("seen_cn".into(), o.side.peer["cn"].clone());
+    m.insert("seen_serial".into(), o.side.peer["serial"].clone());
+    m.insert("seen_issuer".into(), o.side.peer["issuer"].clone());
+    m.insert("proto".into(), json!(o.side.proto));
+}
+
+fn real_client_cfg(pki: &Pki, cc: &str) -> ClientCfg {
+    let (cert, key) = client_cert_paths(pki, cc);
+    ClientCfg { name: pki.req_name.clone(), cert, key, ca: Some(pki.path("ca_trusted.pem")), skip: false }
+}
+
+fn free_port() -> u16 {
+    // bind and release: the kernel hands out a port nobody listens on right now
+    let l = std::net::TcpListener::bind(("127.0.0.1", 0)).expect("tool: cannot bind a loopback port");
+    l.local_addr().expect("tool: local_addr").port()
+}
+
+/// Some(true): a LISTEN socket on 127.0.0.1:port belongs to this process; Some(false): none does (yet);
+/// None: the socket table cannot be read.
+fn listener_is_ours(port: u16) -> Option<bool> {
+    let table = std::fs::read_to_string("/proc/self/net/tcp").ok()?;
+    let want = format!("0100007F:{port:04X}");
+    let mut inodes = Vec::new();
+    for l in table.lines().skip(1) {
+        let f: Vec<&str> = l.split_whitespace().collect();
+        if f.len() > 9 && f[1] == want && f[3] == "0A" {
+            inodes.push(f[9].to_string());
+        }
+    }
+    if inodes.is_empty() {
+        return Some(false);
+    }
+    for e in std::fs::read_dir("/proc/self/fd").ok()? {
+        if let Ok(target) = std::fs::read_link(e.ok()?.path()) {
+            let t = target.to_string_lossy();
+            if inodes.iter().any(|i| t == format!("socket:[{i}]")) {
+                return Some(true);
+            }
+        }
+    }
+    Some(false)
+}
+
+enum RealEnd {
+    Done,
+    /// the port picked was taken before `server_main` bound it: try again with a fresh runtime
+    PortClash(String),
+}
+
+async fn real_script(pki: &Pki, s: &Value, out: &mut Vec<Value>) -> RealEnd {
+    use rusty_penguin_lib::arg::ServerArgs;
+    use rusty_penguin_lib::server::{Error as ServerError, server_main};
+    let id = s["id"].clone();
+    let mtls = s["mtls"].as_bool().unwrap_or(false);
+    let ops = s["ops"].as_array().expect("tool: ops").clone();
+    let right = if mtls { "trustedCA" } else { "none" };
+    // (1) of the reload protocol; also disarms the default action of SIGUSR1 for good
+    let mut own_usr1 = tokio::signal::unix::signal(tokio::signal::unix::SignalKind::user_defined1())
+        .expect("tool: cannot listen for SIGUSR1");
+    let mut version = 0usize;
+    pki.install_ident(0);
+    let port = free_port();
+    let args: &'static ServerArgs = Box::leak(Box::new(ServerArgs {
+        host: vec!["127.0.0.1".to_string()],
+        port: vec![port],
+        tls_cert: Some(pki.path("live.crt")),
+        tls_key: Some(pki.path("live.key")),
+        tls_ca: mtls.then(|| pki.path("ca_trusted.pem")),
+        not_found_resp: NOT_FOUND_BODY.to_string(),
+        timeout: penguin_mux::timing::OptionalDuration::from_secs(SERVER_TIMEOUT_SECS),
+        ..Default::default()
+    }));
+    out.push(merge(json!({"ev": "rscript", "id": id, "mtls": mtls, "ops": ops, "port": port}), &pki.tags()));
+    let mut server = tokio::spawn(server_main(args));
+    // wait until `server_main` listens on the port (or has given up). "Listens" is read from the kernel's socket
+    // table: a LISTEN socket on 127.0.0.1:port whose inode is one of this process's descriptors. That cannot be
+    // confused with somebody else's listener that took the port in between (then `server_main` fails with
+    // AddrInUse, see below). Without a readable /proc: a TCP connect that succeeds, followed by a grace period in
+    // which a `server_main` that lost the port would have returned.
+    let t0 = std::time::Instant::now();
+    loop {
+        if server.is_finished() {
+            break;
+        }
+        match listener_is_ours(port) {
+            Some(true) => break,
+            Some(false) => {}
+            None => {
+                if tokio::net::TcpStream::connect(("127.0.0.1", port)).await.is_ok() {
+                    tokio::time::sleep(Duration::from_millis(50)).await;
+                    if !server.is_finished() {
+                        break;
+                    }
+                    continue;
+                }
+            }
+        }
+        assert!(t0.elapsed() < START_DEADLINE, "tool: server_main is running but does not listen on 127.0.0.1:{port}");
+        tokio::time::sleep(Duration::from_millis(1)).await;
+    }
+    if server.is_finished() {
+        let init = |res: &str, err: String| json!({"ev": "rstep", "id": id, "i": 0, "op": "init", "conn": 0, "res": res, "err": err});
+        match (&mut server).await {
+            Ok(Err(ServerError::Io(e))) if e.kind() == std::io::ErrorKind::AddrInUse => {
+                return RealEnd::PortClash(format!("{e:?}"));
+            }
+            // the server refuses to start with a configuration generated by this harness, or ends right away
+            Ok(Err(e)) => out.push(init("err", format!("{e:?}"))),
+            Ok(Ok(())) => out.push(init("returned", String::new())),
+            Err(e) => out.push(init(if e.is_panic() { "panic" } else { "cancelled" }, e.to_string())),
+        }
+        return RealEnd::Done;
+    }
+    let mut conns: Vec<Option<RealStream>> = Vec::new();
+    for (i, op) in ops.iter().enumerate() {
+        let kind = op["op"].as_str().expect("tool: op");
+        let conn = op["conn"].as_u64().unwrap_or(0) as usize;
+        let mut line = json!({"ev": "rstep", "id": id, "i": i + 1, "op": kind, "conn": conn, "mtls": mtls, "reloads": version});
+        match kind {
+            "connect" => {
+                let cc = op["cc"].as_str().expect("tool: cc").to_string();
+                line["cc"] = json!(cc);
+                let (obs, st) = guarded_real(real_client(port, real_client_cfg(pki, &cc))).await;
+                put_real(&mut line, &obs);
+                // conn = the slot the script gives this connection (0: the script does not keep it)
+                match (conn, st) {
+                    (0, Some(mut st)) => {
+                        let _ = tokio::time::timeout(Duration::from_secs(2), st.shutdown()).await;
+                    }
+                    (0, None) => {}
+                    (k, st) => {
+                        if conns.len() < k {
+                            conns.resize_with(k, || None);
+                        }
+                        // a connection whose round trip failed is not usable
+                        conns[k - 1] = if obs.side.rt == "ok" { st } else { None };
+                    }
+                }
+            }
+            "reload" => {
+                version += 1;
+                pki.install_ident(version);
+                let want_serial = 100 + version as u64;
+                // SAFETY: plain libc call; a handler for SIGUSR1 is installed (own_usr1 above)
+                let rc = unsafe { libc::kill(libc::getpid(), libc::SIGUSR1) };
+                assert!(rc == 0, "tool: kill(getpid(), SIGUSR1) failed");
+                match tokio::time::timeout(SIGNAL_DEADLINE, own_usr1.recv()).await {
+                    Ok(Some(())) => {}
+                    _ => panic!("tool: SIGUSR1 was raised but not delivered to this process's listeners within {SIGNAL_DEADLINE:?}"),
+                }
+                let t0 = std::time::Instant::now();
+                let mut polls = 0u64;
+                let (res, last) = loop {
+                    polls += 1;
+                    let (obs, st) = guarded_real(real_client(port, real_client_cfg(pki, right))).await;
+                    if let Some(mut st) = st {
+                        let _ = tokio::time::timeout(Duration::from_secs(2), st.shutdown()).await;
+                    }
+                    if obs.side.peer["serial"].as_u64() == Some(want_serial) {
+                        break ("ok", obs);
+                    }
+                    if obs.side.hs == "panic" {
+                        break ("panic", obs);
+                    }
+                    let deadline = if STALE_SEEN.load(std::sync::atomic::Ordering::Relaxed) {
+                        RELOAD_DEADLINE_AFTER_STALE
+                    } else {
+                        RELOAD_DEADLINE
+                    };
+                    if t0.elapsed() >= deadline {
+                        STALE_SEEN.store(true, std::sync::atomic::Ordering::Relaxed);
+                        break (if obs.side.hs == "tcp_err" { "unreachable" } else { "stale" }, obs);
+                    }
+                    tokio::time::sleep(Duration::from_millis(if polls < 50 { 2 } else { 50 })).await;
+                };
+                put_real(&mut line, &last);
+                line["res"] = json!(res);
+                line["to"] = json!(version);
+                line["polls"] = json!(polls);
+                line["signal"] = json!("delivered");
+                line["server_running"] = json!(!server.is_finished());
+            }
+            "use" => match conns.get_mut(conn.wrapping_sub(1)).and_then(Option::take) {
+                None => put_real(&mut line, &RealObs { side: Side::failed("gone", String::new()), status: 0 }),
+                Some(st) => {
+                    let host = pki.req_name.clone();
+                    let (obs, st) = guarded_real(async move {
+                        let mut st = st;
+                        let mut obs = RealObs { side: Side::new(), status: 0 };
+                        obs.side.hs = "ok".into();
+                        real_round_trip(&mut st, &host, &mut obs).await;
+                        (obs, Some(st))
+                    })
+                    .await;
+                    put_real(&mut line, &obs);
+                    conns[conn - 1] = if obs.side.rt == "ok" { st } else { None };
+                }
+            },
+            other => panic!("tool: unknown operation {other}"),
+        }
+        out.push(line);
+    }
+    for st in conns.iter_mut().filter_map(Option::as_mut) {
+        let _ = tokio::time::timeout(Duration::from_secs(2), st.shutdown()).await;
+    }
+    server.abort();
+    let _ = server.await;
+    RealEnd::Done
+}
+
+/// Runs one real-server script in a runtime of its own. A panic of the code under test outside the guarded
+/// client tasks comes back as Err (data); tool errors are panics with the prefix "tool:" (checked by main).
+fn run_real_script(pki: &Pki, s: &Value, out: &mut Vec<Value>) -> Result<(), Box<dyn std::any::Any + Send>> {
+    let mut clashes = Vec::new();
+    for _ in 0..PORT_ATTEMPTS {
+        let rt = tokio::runtime::Builder::new_multi_thread().worker_threads(2).enable_all().build().expect("tool: runtime");
+        let mut part = Vec::new();
+        let r = rt.block_on(AssertUnwindSafe(real_script(pki, s, &mut part)).catch_unwind());
+        // the server, its listeners and its SIGUSR1 task end here
+        rt.shutdown_timeout(Duration::from_secs(5));
+        match r {
+            Ok(RealEnd::PortClash(e)) => clashes.push(e),
+            Ok(RealEnd::Done) => {
+                out.append(&mut part);
+                return Ok(());
+            }
+            Err(p) => {
+                out.append(&mut part);
+                return Err(p);
+            }
+        }
+    }
+    panic!("tool: no free loopback port for server_main after {PORT_ATTEMPTS} attempts: {clashes:?}");
+}
+
+// ------------------------------------------------------------------------------------------------
 fn main() {
     let args: Vec<String> = std::env::args().collect();
     if args.len() != 8 {
@@ -695,7 +1139,7 @@ fn main() {
         .lines()
         .filter(|l| !l.trim().is_empty())
         .map(|l| serde_json::from_str(l).expect("tool: malformed case line"))
-        .filter(|v: &Value| v["ev"] == "case" || v["ev"] == "script")
+        .filter(|v: &Value| v["ev"] == "case" || v["ev"] == "script" || v["ev"] == "rscript")
         .collect();
 
     let rt = tokio::runtime::Builder::new_multi_thread().worker_threads(2).enable_all().build().expect("tool: runtime");
@@ -727,6 +1171,16 @@ fn main() {
                     put_sides(&mut line, &Side::failed("panic", msg.clone()), &Side::failed("panic", msg));
                     line
                 }));
+            } else if item["ev"] == "rscript" {
+                let mut part = Vec::new();
+                let r = run_real_script(pki, item, &mut part);
+                let n = part.len();
+                lines.append(&mut part);
+                if let Err(p) = r {
+                    let msg = panic_text(p.as_ref());
+                    assert!(!msg.starts_with("tool:"), "{msg}");
+                    lines.push(json!({"ev": "rstep", "id": item["id"], "i": n, "op": "panic", "conn": 0, "res": "panic", "err": msg}));
+                }
             } else {
                 let mut part = Vec::new();
                 let r = rt.block_on(AssertUnwindSafe(run_script(pki, item, &mut part)).catch_unwind());
